@@ -20,6 +20,7 @@ use vstd::std_specs::cmp::OrdSpec;
 //@map /\bString\b/ => VxStr
 //@map /Arc<dyn Validator>/ => VxValidator
 //@map /\.values\(\)\.sum::<u64>\(\)/ => .vx_sum()
+//@map /\.values\(\)\.into_iter\(\)\.sum::<u64>\(\)/ => .vx_sum()
 //@map /(\w+(?:\.\w+)*)\.payments\.entry\((\w+)\)\.or_insert_with\(RoutedPayment::new\);/ => \1.payments.vx_ensure(\2);
 //@map /\bDuration::from_secs\(/ => VxDuration::from_secs(
 //@map /\bDuration\b/ => VxDuration
@@ -60,6 +61,16 @@ impl VxChanMap {
         ensures r.is_some() == self@.contains_key(*k), r.is_some() ==> *(r->Some_0) == self@[*k] { unimplemented!() }
     #[verifier::external_body]
     pub fn insert(&mut self, k: ChannelId, v: u64) -> (r: Option<u64>) ensures final(self)@ == old(self)@.insert(k, v) { unimplemented!() }
+    // the rest of the map API a body may use (std semantics)
+    #[verifier::external_body]
+    pub fn remove(&mut self, k: &ChannelId) -> (r: Option<u64>)
+        ensures final(self)@ == old(self)@.remove(*k), r.is_some() == old(self)@.contains_key(*k), r.is_some() ==> r->Some_0 == old(self)@[*k] { unimplemented!() }
+    #[verifier::external_body]
+    pub fn clear(&mut self) ensures final(self)@ == Map::<ChannelId, u64>::empty() { unimplemented!() }
+    #[verifier::external_body]
+    pub fn contains_key(&self, k: &ChannelId) -> (r: bool) ensures r == self@.contains_key(*k) { unimplemented!() }
+    #[verifier::external_body]
+    pub fn is_empty(&self) -> (r: bool) ensures r == (self@ == Map::<ChannelId, u64>::empty()) { unimplemented!() }
 }
 // hashbrown maps keyed by payment hash
 #[verifier::external_body] pub struct VxPayMap { _p: u8 }
@@ -101,7 +112,30 @@ impl VxPaymentMap {
 impl VxInvoiceMap {
     #[verifier::external_body]
     pub fn vx_mark_fulfilled(&mut self, k: &PaymentHash) { unimplemented!() }
+    // `if let Some(issued) = m.get_mut(k) { if !issued.is_fulfilled { issued.is_fulfilled = true; <then> } }`: the
+    // issued-invoice table (invoices this node issued: incoming side, not part of C06's amounts); answers whether the
+    // flag was newly set
+    #[verifier::external_body]
+    pub fn vx_mark_fulfilled_if_new(&mut self, k: &PaymentHash) -> bool { unimplemented!() }
+    #[verifier::external_body]
+    pub fn contains_key(&self, k: &PaymentHash) -> (r: bool) ensures r == self@.contains_key(*k) { unimplemented!() }
 }
+impl VxPaymentMap {
+    #[verifier::external_body]
+    pub fn contains_key(&self, k: &PaymentHash) -> (r: bool) ensures r == self@.contains_key(*k) { unimplemented!() }
+    #[verifier::external_body]
+    pub fn remove(&mut self, k: &PaymentHash) -> (r: Option<RoutedPayment>)
+        ensures final(self)@ == old(self)@.remove(*k), r.is_some() == old(self)@.contains_key(*k), r.is_some() ==> r->Some_0 == old(self)@[*k] { unimplemented!() }
+}
+impl VxInvoiceMap {
+    #[verifier::external_body]
+    pub fn remove(&mut self, k: &PaymentHash) -> (r: Option<PaymentState>)
+        ensures final(self)@ == old(self)@.remove(*k), r.is_some() == old(self)@.contains_key(*k), r.is_some() ==> r->Some_0 == old(self)@[*k] { unimplemented!() }
+}
+// PaymentHash(Sha256Hash::hash(&preimage.0).to_byte_array())
+pub uninterp spec fn hash_of_preimage(p: PaymentPreimage) -> PaymentHash;
+#[verifier::external_body]
+pub fn vx_hash_of_preimage(p: &PaymentPreimage) -> (r: PaymentHash) ensures r == hash_of_preimage(*p) { unimplemented!() }
 // what RoutedPayment::new() returns (under contract below)
 pub open spec fn is_routed_new(n: RoutedPayment) -> bool {
     n.incoming@ == Map::<ChannelId, u64>::empty() && n.outgoing@ == Map::<ChannelId, u64>::empty()
@@ -223,6 +257,12 @@ impl RoutedPayment {
     ensures r == self.preimage.is_some(),
 //@end
 
+//@fn vls-core/src/node.rs :: impl RoutedPayment :: incoming_outgoing props=C06
+    ensures
+        map_total(self.incoming@) <= u64::MAX ==> r.0 == map_total(self.incoming@),
+        map_total(self.outgoing@) <= u64::MAX ==> r.1 == map_total(self.outgoing@),                       //[C06.routed.totals]
+//@end
+
 //@fn vls-core/src/node.rs :: impl RoutedPayment :: updated_incoming_outgoing props=C06
     requires
         map_total(self.incoming@) <= SAT_BOUND, map_total(self.outgoing@) <= SAT_BOUND,
@@ -254,6 +294,23 @@ impl RoutedPayment {
 
 
 impl NodeState {
+
+//@fn vls-core/src/node.rs :: impl NodeState :: htlc_fulfilled props=C06
+    ensures
+        // learning a preimage approves nothing and changes no amount on the ledger: every hash keeps its entry and the entry
+        // keeps its per-channel incoming and outgoing amounts (what validate_payments sums); only the preimage of the
+        // fulfilled hash is recorded.  An HTLC stays in flight on its channel until that channel's next commitment update.
+        final(self).invoices == old(self).invoices,                                                        //[C06.htlc-fulfilled.approvals-kept]
+        forall|h: PaymentHash| (#[trigger] final(self).payments@.contains_key(h) <==> old(self).payments@.contains_key(h))
+            && (old(self).payments@.contains_key(h) ==> final(self).payments@[h].incoming == old(self).payments@[h].incoming
+                && final(self).payments@[h].outgoing == old(self).payments@[h].outgoing),                  //[C06.htlc-fulfilled.ledger-amounts-kept]
+        forall|h: PaymentHash| h != hash_of_preimage(preimage) && old(self).payments@.contains_key(h) ==>
+            #[trigger] final(self).payments@[h] == old(self).payments@[h],                                 //[C06.htlc-fulfilled.other-hashes-untouched]
+        final(self).velocity_control == old(self).velocity_control, final(self).fee_velocity_control == old(self).fee_velocity_control,
+//@sub /PaymentHash\(Sha256Hash::hash\(&preimage\.0\)\.to_byte_array\(\)\)/ => vx_hash_of_preimage(&preimage)
+//@sub /(?s)if let Some\(issued\) = self\.issued_invoices\.get_mut\(&payment_hash\) \{\s*if !issued\.is_fulfilled \{\s*issued\.is_fulfilled = true;\s*fulfilled = true;\s*\}\s*\}/ => if self.issued_invoices.vx_mark_fulfilled_if_new(&payment_hash) { fulfilled = true; }
+//@sub /if let Some\(payment\) = self\.payments\.get_mut\(&payment_hash\) \{/ => if self.payments.contains_key(&payment_hash) { let payment = self.payments.vx_get_mut(&payment_hash);
+//@end
 
 //@fn vls-core/src/node.rs :: impl NodeState :: validate_payments props=C06 optclosures
     requires ledger_in_range(*self, validator, incoming_payment_summary@, outgoing_payment_summary@),
@@ -550,6 +607,8 @@ impl VxNodeInv {
         // refused (velocity limit, too many invoices, different keysend for the hash): nothing is approved
         !(r.is_ok() && r->Ok_0) ==> final(self).state.invoices@ == old(self).state.invoices@
             && final(self).state.payments@ == old(self).state.payments@,                                   //[C10.add-keysend.refused-approves-nothing] [C12.add-keysend.refused-approves-nothing] [C06.add-keysend.refused-leaves-no-ledger-entry]
+        // refused with an error: the whole node state (velocity controls included) and what the store holds are as before
+        r.is_err() ==> final(self).state == old(self).state && final(self).persisted@ == old(self).persisted@,            //[C10.add-keysend.err-frame]
 //@sub /Node::payment_state_from_keysend\(/ => Self::payment_state_from_keysend(
 //@sub /self\.clock\.now\(\)/ => self.vx_clock_now()
 //@sub /let mut state = self\.get_state\(\);/ => 
@@ -569,6 +628,8 @@ impl VxNodeInv {
             final(self).state.payments@.contains_key(h) && final(self).state.payments@[h] == old(self).state.payments@[h],    //[C06.add-invoice.ledger-kept]
         !(r.is_ok() && r->Ok_0) ==> final(self).state.invoices@ == old(self).state.invoices@
             && final(self).state.payments@ == old(self).state.payments@,                                   //[C10.add-invoice.refused-approves-nothing] [C12.add-invoice.refused-approves-nothing] [C06.add-invoice.refused-leaves-no-ledger-entry]
+        // refused with an error: the whole node state (velocity controls included) and what the store holds are as before
+        r.is_err() ==> final(self).state == old(self).state && final(self).persisted@ == old(self).persisted@,            //[C10.add-invoice.err-frame]
 //@sub /self\.clock\.now\(\)/ => self.vx_clock_now()
 //@sub /let mut state = self\.get_state\(\);/ => 
 //@sub /\bstate\./ => self.state.
